@@ -303,6 +303,65 @@ def replay(body: dict) -> int:
 
 
 # ------------------------------------------------------------------ the run
+def reparse_oracle(ck) -> int:
+    """a text is parsed, the recovered dependency objects are edited in place through the caller's own list, and the same
+    text is parsed again (also after a different text): every parse recovers dependencies equal to the serialised ones"""
+    from htmltools import HTML, HTMLDependency, HTMLTextDocument, tags
+    n = 0
+
+    def snap(ds):
+        return [(d.name, str(d.version), repr(d.source), repr(d.script), repr(d.stylesheet), repr(d.meta), d.all_files,
+                 None if d.head is None else d.head.get_html_string()) for d in ds]
+
+    sets = [
+        [HTMLDependency("m1", "1.0", source={"subdir": "/s"}, script=[{"src": "a.js"}, {"src": "b.js", "defer": ""}], stylesheet={"href": "a.css"},
+                        meta={"name": "n", "content": "c"}, head=tags.title("t"), all_files=True),
+         HTMLDependency("m2", "2.0", source={"href": "https://x/y"}, script={"src": "c.js"}, head=HTML("<!-- h -->"))],
+        [HTMLDependency("solo", "0.1", meta=[{"name": "a", "content": "1"}, {"name": "b", "content": "2"}])],
+    ]
+    for k, deps_in in enumerate(sets):
+        text = "<head>PH</head><body>x" + "\n".join(str(d.serialize_to_script_json(indent=k)) for d in deps_in) + "y</body>"
+        other = "<p>PH</p>" + str(deps_in[0].serialize_to_script_json())
+        want = snap(deps_in)
+
+        def parse(t=text):
+            got: list = []
+            r = HTMLTextDocument(t, deps=got, deps_replace_pattern="PH").render()
+            return got, r["html"], [(d.name, str(d.version)) for d in r["dependencies"]]
+        hist = []
+        try:
+            got1, html1, names1 = parse()
+            hist.append("parse")
+            s1 = snap(got1)
+            for d in got1:                       # in-place edits of everything the recovered objects hold
+                d.script.append({"src": "added.js"})
+                d.stylesheet.clear()
+                d.meta.append({"name": "added", "content": "z"})
+                if d.source is not None:
+                    d.source["subdir" if "subdir" in d.source else "href"] = "/changed"
+                for it in d.script:
+                    it["data-x"] = "1"
+            hist.append("edit the recovered objects in place")
+            parse(other)
+            hist.append("parse another text")
+            got2, html2, names2 = parse()
+            hist.append("parse the first text again")
+            s2 = snap(got2)
+        except Exception as e:  # noqa: BLE001
+            ck.py_violation(f"reparse set {k}", f"raised {type(e).__name__}: {e}", f"history {hist} raised", py=f"set {k}: " + "; ".join(hist))
+            continue
+        n += 1
+        ck.holds_checked += 1
+        if s1 != want or s2 != want or html2 != html1 or names2 != names1:
+            ck.py_violation(f"reparse set {k}", repr(s2)[:400],
+                            "the same text parsed again after the first parse's recovered dependencies were edited in place recovers "
+                            f"{s2!r}; the serialised dependencies are {want!r}" + ("" if html2 == html1 else "; the rendered text differs too"),
+                            py="ds = []; HTMLTextDocument(text, deps=ds, deps_replace_pattern='PH'); ds[0].script.append({'src': 'added.js'}); "
+                               "ds2 = []; HTMLTextDocument(text, deps=ds2, deps_replace_pattern='PH'); ds2[0].script")
+    ck.exhaustive_scopes.append({"scope": "parse, edit the recovered dependencies in place, parse another text, parse again: 2 dependency sets", "n": n, "exhaustive": True})
+    return n
+
+
 def run(tier: str) -> int:
     import htmltools
     from htmltools import HTMLDocument, HTMLTextDocument, Tag, TagList
@@ -540,6 +599,7 @@ def run(tier: str) -> int:
     repl = srctie_c08.replace_lines(rng, 300 if tier == "quick" else 3000)
     ck.src_lines += list(zip(repl, core.impl_many(repl)))
     __import__("srctie_c13").add_src_c13(ck)       # Props/SrcC13.lean: the regenerated extraction / __init__ / render / serialize and Py/PrimC13.lean against the interpreter
+    ck.extra_cov["reparse_histories"] = reparse_oracle(ck)
     ck.correspond(holds=True)
 
     # ---------------- 6. same markup as HTMLDocument puts in <head> (Python-side, both real)
